@@ -28,6 +28,8 @@ def gen_bounds(rng, quick):
             q = p * r; l = p / 2; u = q * 2
         elif kind == "unbounded":
             l, u = -inf, inf; p = rng.uniform(-5, 0); q = p + 10.0 ** rng.uniform(-2, 3)
+            if rng.random() < 0.3:      # a plausible box far from the origin / very wide
+                p = rng.choice([-1.0, 1.0]) * 10.0 ** rng.uniform(5, 10); q = p + 10.0 ** rng.uniform(3, 11)
         elif kind == "tight":
             l = rng.uniform(-5, 5); u = l + 10.0 ** rng.uniform(-2, 2); p, q = l, u
         elif kind == "neg":
@@ -50,7 +52,8 @@ def points_for(rng, l, u, p, q):
         if math.isfinite(u):
             pts += [u - w * 1e-12, u + w * 1e-9, u + abs(u) * 0.5 + 1e-3, l + w * rng.random(), l + w * rng.random()]
     else:
-        pts += [p - 10 * (q - p), q + 100 * (q - p)]
+        # no hard bounds: every real is inside the box, however far out
+        pts += [p - 10 * (q - p), q + 100 * (q - p), p - 10.0 ** rng.uniform(6, 11.5), q + 10.0 ** rng.uniform(6, 11.5), q + 10.0 ** rng.uniform(6, 11.5)]
     return sorted(set(float(v) for v in pts))
 
 
@@ -113,7 +116,10 @@ def check(ctx, rep, nsets):
             inside = (X[:, i] >= l) & (X[:, i] <= u)
             stats["outside_points"] += int(np.sum(~inside))
             if np.any(inside):
-                err = float(np.max(np.abs(Xb[inside, i] - X[inside, i]))) / width
+                if math.isfinite(u - l):
+                    err = float(np.max(np.abs(Xb[inside, i] - X[inside, i]))) / width
+                else:   # infinite box: relative to the plausible width or the point's own magnitude, whichever is larger
+                    err = float(np.max(np.abs(Xb[inside, i] - X[inside, i]) / np.maximum(width, np.abs(X[inside, i]))))
                 stats["max_roundtrip_rel_width"] = max(stats["max_roundtrip_rel_width"], err)
                 if err > 1e-9:
                     rep.violation("roundtrip", SITE, f"coordinate {i}: round-trip error {err:.3e} of the box width exceeds 1e-9 (lb={l}, ub={u})", ccase)
